@@ -863,6 +863,12 @@ func (f *Frame) builtin(name string, args []*SVal, c *ssa.CallCommon, rt types.T
 			g.note("%s: unsafe.String(unsafe.SliceData(b), n) is the string of b's first n bytes at that point (later writes to b are not reflected)", f.fn.String())
 			n := idx64(args[1])
 			f.oblige("panic", sAnd(sApp("bvsge", n, bv64(0)), sApp("bvsle", n, src.Sub[3].Term)), pos, "unsafe.String: length within the slice's capacity")
+			// strings are immutable values in this model: that is only right for a string laid over memory nobody
+			// else holds - memory this very function allocated. Over caller-owned memory (a buffer the caller goes
+			// on writing to) the "string" would change under its holder.
+			if f.entry != nil {
+				f.oblige("aliasing", sOr(sEq(n, bv64(0)), sNot(g.allocated(f.entry, src.Sub[0].Term))), pos, "unsafe.String over memory the function did not allocate itself (the string would alias a buffer its owner may overwrite)")
+			}
 			h := g.heapGet(f.curState, elemFam(tByte), g.elemHeapSort(tByte))
 			return scalar(rt, KString, sApp("str_of_bytes", sSel(h, src.Sub[0].Term), src.Sub[1].Term, n))
 		}
